@@ -5,6 +5,7 @@ CONSTANTS
   PipeCap = 1
   CtxAwareSend = TRUE
   Flood = TRUE
+  Http = TRUE
 INVARIANTS NonZeroOnFailure ErrorCancels
 PROPERTIES FailStop SignalStops CancelStopsA CancelStopsS CancelStopsP StaysReturned
 CHECK_DEADLOCK FALSE
